@@ -5,8 +5,8 @@
    passwd/group format strings and the mutator table are the ones goextract
    read from accounts.go / passwd.go / group.go / paths.go on this run
    (Generated/C13Consts.v); [maxl] is the filesystems' symlink nesting limit. *)
-From Apko Require Import Base.Prelude Model.C13Fs Model.Accounts Model.PathMut Generated.C13Consts
-  Spec.AccountsSpec Spec.PathMutSpec Proofs.AccountsProofs Proofs.PathMutProofs.
+From Apko Require Import Base.Prelude Model.C13Fs Model.Accounts Model.PathMut Model.C13Build Generated.C13Consts
+  Spec.AccountsSpec Spec.PathMutSpec Proofs.AccountsProofs Proofs.AccountsCodec Proofs.PathMutProofs Proofs.PathMutBuild.
 Open Scope string_scope. Open Scope list_scope.
 
 (* the constants in the source are the documented defaults: /bin/sh, /home/,
@@ -56,6 +56,34 @@ Theorem c13_defaults_exactly_when_unset : forall u,
   ue_uid e = cu_uid u /\ ue_name e = cu_name u.
 Proof. exact defaults_exactly_when_unset. Qed.
 Print Assumptions c13_defaults_exactly_when_unset.
+
+(* c13_codec_roundtrip: the text level.  For every list of well-formed entries
+   (no ':' or newline inside a field, no leading blank in the name, no trailing
+   blank in the last field, ids below 2^32, line below the scanner's limit —
+   [wf_user]/[wf_group], decidable) what UserEntry.Write / GroupEntry.Write
+   produce with the formats read from the source is parsed back by
+   ReadUserFile / ReadGroupFile to the same entries; a group without members
+   comes back with ONE empty member (strings.Split("", ",")), which writes to
+   the same text.  Hence the file written by mutateAccounts re-reads as the
+   pre-existing entries followed by exactly the configured ones. *)
+Theorem c13_codec_roundtrip :
+  (forall es, forallb wf_user es = true -> parse_users (write_users es) = Some es) /\
+  (forall es, forallb wf_group es = true -> parse_groups (write_groups es) = Some (List.map norm_group es)) /\
+  (forall es, write_groups (List.map norm_group es) = write_groups es) /\
+  (forall old users, forallb wf_user old = true -> forallb wf_user (List.map user_to_entry users) = true ->
+     parse_users (write_users (old ++ List.map user_to_entry users)) = Some (old ++ List.map user_to_entry users)) /\
+  (forall old groups, forallb wf_group old = true -> forallb wf_group (List.map group_to_entry groups) = true ->
+     parse_groups (write_groups (old ++ List.map group_to_entry groups)) =
+       Some (List.map norm_group (old ++ List.map group_to_entry groups))).
+Proof.
+  split; [exact parse_write_users|]. split; [exact parse_write_groups|]. split; [exact write_groups_norm|].
+  split; [exact reread_users | exact reread_groups].
+Qed.
+Print Assumptions c13_codec_roundtrip.
+Example c13_codec_example :
+  wf_user (user_to_entry (mkCU "app" 4294967295 None "" "")) = true /\
+  wf_group (group_to_entry (mkCG "g" 5 ["a"; "b"])) = true /\ wf_group (group_to_entry (mkCG "h" 6 [])) = true.
+Proof. repeat split; vm_compute; reflexivity. Qed.
 
 (* c13_run_as.  run-as becomes the uid of the FIRST entry of that name in
    old ++ configured — so a package-provided entry wins over a configured one —
@@ -128,6 +156,23 @@ Theorem c13_mutations_last_partial : forall maxl f ms m f',
 Proof. exact last_mutation_post. Qed.
 Print Assumptions c13_mutations_last_partial.
 
+(* c13_pipeline_order.  buildImage, as written in the source on this run, shapes
+   the tree the packages produced in this order: mutateAccounts, then
+   etc/apko.json, then mutatePaths (the other steps, wherever they stand, are
+   outside C13).  So a path mutation nested under a configured user's home
+   finds the home already made by the accounts step, and "the home already
+   existed" can only mean: before this build's own declarations. *)
+Theorem c13_pipeline_order :
+  filter c13_step build_image_steps = ["mutateAccounts"; "WriteEtcApkoConfig"; "mutatePaths"] /\
+  forall maxl f users groups ra muts,
+    build_image maxl f users groups ra muts =
+    fdo r <- mutate_accounts maxl f users groups ra;
+    fdo f2 <- write_apko_config maxl (fst r);
+    fdo f3 <- mutate_paths maxl f2 muts;
+    FOk (f3, snd r).
+Proof. split; [exact steps_order_pinned | exact build_image_unfold]. Qed.
+Print Assumptions c13_pipeline_order.
+
 (* a mutation type that is not in pathMutators is rejected *)
 Theorem c13_unknown_type_rejected : forall maxl f m,
   assoc (m_type m) path_mutators = None -> mutate_one maxl f m = FErr.
@@ -189,8 +234,8 @@ Proof. exact home_created_example. Qed.
    package-provided entry wins *)
 Example c13_accounts_example :
   exists f' , mutate_accounts 40
-      [mkNode KDir 493 0 0 "" "" [("etc", 1%nat)]; mkNode KDir 493 0 0 "" "" [("passwd", 2%nat)];
-       mkNode KFile 420 0 0 "" (write_users [mkUE "app" "x" 77 77 "pkg" "/dev/null" "/bin/sh"]) []]
+      [mkNode KDir 493 0 0 "" "" [("etc", 1%nat)] ""; mkNode KDir 493 0 0 "" "" [("passwd", 2%nat)] "";
+       mkNode KFile 420 0 0 "" (write_users [mkUE "app" "x" 77 77 "pkg" "/dev/null" "/bin/sh"]) [] ""]
       [mkCU "app" 1000 None "" ""] [mkCG "g" 5 ["app"]] "app" = FOk (f', "77") /\
     match gnode 40 f' etc_passwd with FOk n => Some (ndata n) | _ => None end = Some (write_users [mkUE "app" "x" 77 77 "pkg" "/dev/null" "/bin/sh";
                                           mkUE "app" "x" 1000 1000 "Account created by apko" "/home/app" "/bin/sh"]).
